@@ -41,6 +41,8 @@ ASSUMPTIONS = [
     "behaviour under tz-database I/O errors (EIO, EACCES) is not constrained by the property and not injected",
 ]
 
+HISTORY_CHECK = True   # last runs of every chunk are re-observed alone in a fresh interpreter
+
 TIERS = {
     "quick":    {"runs": 3200,   "chunk": 100,  "hash_seeds": [0], "max_steps": 10, "timeout": 900},
     "thorough": {"runs": 48000, "chunk": 600, "max_wall": 2400, "hash_seeds": [0], "max_steps": 12, "timeout": 3400},
